@@ -31,6 +31,8 @@ type Monitor struct {
 	// Delay returns how long the reply to the request is withheld (the exchange stays open meanwhile).
 	Delay func(r spec.Req) time.Duration
 	Dropped int
+	// CloseDelay makes Close() of every connection take this long
+	CloseDelay time.Duration
 	// Wake lets tests observe activity
 	conns int
 }
@@ -198,8 +200,15 @@ func (c *ArrivalConn) Read(p []byte) (int, error) {
 	return n, nil
 }
 
-// Close marks the connection closed; later calls fail with net.ErrClosed.
+// Close marks the connection closed; later calls fail with net.ErrClosed. CloseDelay makes Close slow (a port that takes a
+// while to release), which keeps a client's lock held for longer.
 func (c *ArrivalConn) Close() error {
+	c.M.mu.Lock()
+	d := c.M.CloseDelay
+	c.M.mu.Unlock()
+	if d > 0 {
+		time.Sleep(d)
+	}
 	c.M.mu.Lock()
 	c.closed = true
 	c.M.mu.Unlock()
